@@ -142,8 +142,7 @@ def pattern(rnd, nmem_hint):
     return ops
 
 
-def shard(seed, n, corpus, tier):
-    sh = core.Shard()
+def gen_cases(seed, n, corpus):
     rnd = random.Random(seed)
     cases = []
     for i in range(n):
@@ -164,6 +163,35 @@ def shard(seed, n, corpus, tier):
             kind_in = 'structured-hostile'
         kind = rnd.choice([0, 1, 2, 3, 4])
         cases.append(rdh.RCase(a, pattern(rnd, rnd.choice([1, 3, 6])), kind=kind, policy=rnd.choice([0, 1, 2, 3]), meta=kind_in))
+    return cases
+
+
+def line_coverage(b, seed, corpus, n):
+    """gcov line coverage of the anchored sources reached by a sample of this run's workload (same generator, --coverage build)"""
+    import subprocess, re
+    exe = b.harness('cov', 'reader', ['h_reader.c'], wrap_alloc=True)
+    cases = gen_cases(seed, n, corpus)
+    st = core.Shard()
+    rdh.run_batch(exe, cases, st, label='c08cov', on_crash=lambda *a: None, env_extra={'VERIF_CASE_CPU_S': '60'})
+    objdir = os.path.join(b.root, 'cov', 'lib')
+    out = {}
+    for src in sorted(os.listdir(os.path.join(build.REPO, 'lib'))):
+        if not src.endswith('.c') or src in build.TEMPLATES or not os.path.exists(os.path.join(objdir, src[:-2] + '.gcda')):
+            continue
+        r = subprocess.run(['gcov', '-n', '-o', objdir, os.path.join(build.REPO, 'lib', src)], capture_output=True, text=True, cwd=objdir)
+        for m in re.finditer(r"File '([^']+)'\nLines executed:([0-9.]+)% of (\d+)", r.stdout):
+            f = m.group(1)
+            if f.startswith(build.REPO + '/lib/') or f in build.TEMPLATES or (not f.startswith('/') and f.endswith('.c')):
+                name = os.path.basename(f)
+                pct, tot = float(m.group(2)), int(m.group(3))
+                if name not in out or out[name][1] < tot or out[name][0] < pct:
+                    out[name] = [pct, tot]
+    return out
+
+
+def shard(seed, n, corpus, tier):
+    sh = core.Shard()
+    cases = gen_cases(seed, n, corpus)
 
     def on_crash(case, cls, key, err):
         if cls == 'hang':
@@ -215,6 +243,16 @@ def run(ctx):
     nsh = 16
     per = 1300 if ctx.tier == 'quick' else 190000
     core.run_shards(ctx, shard, [(ctx.seed * 211 + i, per, corpus, ctx.tier) for i in range(nsh)])
+    try:
+        cov = line_coverage(b, ctx.seed * 211, corpus, 2500 if ctx.tier == 'quick' else 20000)
+        ctx.cov['line_coverage_of_sample'] = {k: '%.1f%% of %d lines' % (v[0], v[1]) for k, v in sorted(cov.items())}
+        hdr = cov.get('lha_file_header.c')
+        if hdr and hdr[0] < 60:
+            raise core.HarnessFailure('workload reaches only %.0f%% of lha_file_header.c' % hdr[0])
+    except core.HarnessFailure:
+        raise
+    except Exception as e:            # coverage is evidence, never a verdict
+        ctx.cov['line_coverage_of_sample'] = 'unavailable: %s' % e
     # (b) the tool itself, ASan build
     exe = b.cli('asan')
     so = b.shared('fsmon', 'fsmon.c')
@@ -245,6 +283,11 @@ def run(ctx):
                     raise core.HarnessFailure('preload failed: ' + err[:300])
                 ctx.violation('C08-cli:%s:%s' % (mode.split('=')[0], key), "'lha %s' on a %s input ended abnormally (%s): %s" % (mode, kin, cls, err[:1500]), a)
     shutil.rmtree(base, ignore_errors=True)
+    if ctx.tier == 'thorough':
+        from .. import fuzz
+        seeds = [bytes([7]) + c for c in corpus] + [bytes([rnd.randrange(256)]) + hostile(rnd) for _ in range(400)] \
+            + [bytes([rnd.randrange(256)]) + arc.archive(c15.random_archive(rnd)) for _ in range(100)]
+        fuzz.run_fuzzer(ctx, b, 'reader', 'fz_reader.c', seeds, runs=300000, workers=16, key_prefix='C08', max_len=16384)
     ctx.cov['rule'] = ('inputs: random bytes behind a planted signature, mutated corpus/generated archives, structure-aware hostile headers (length fields at/around their '
                        'limits with checksums repaired), truncations; (a) reader API patterns over {next, read(k), read-to-end, check, extract to a harness-named file, skip} '
                        'with each entry decoded/extracted at most once, 5 stream kinds, 4 policies; (b) the ASan-built tool in 13 modes; distinct by input+pattern; '
